@@ -293,6 +293,22 @@ def apply(ex, st, p, inp, depth=0):
         return fork(ex, st, z3.UGT(q, s),
                     lambda s1: [Outcome(s1, ret=r_ok(SliceV(ln, q, e), SliceV(ln, s, q)))],
                     lambda s2: [Outcome(s2, ret=r_err(1, "TakeWhile1"))])
+    if k == "take_while_m_n":
+        m_, n_, fnv = p.args
+        if not (z3.is_bv_value(m_) and z3.is_bv_value(n_)):
+            raise Unsupported("take_while_m_n with symbolic bounds")
+        lo_n, hi_n = m_.as_long(), n_.as_long()
+        def pred(b, fnv=fnv):
+            outs = call_fn(ex, st, fnv, [b])
+            if len(outs) != 1 or outs[0].panic is not None:
+                raise Unsupported("byte predicate is not a straight-line function")
+            return ex.as_bool(outs[0].ret)
+        avail = e - s
+        lim = z3.If(z3.ULE(avail, hi_n), e, s + hi_n) if hi_n < 256 else e
+        q = ln.first(lambda b: z3.Not(pred(b)), s, lim, key=("twmn", getattr(fnv, "span", None) or getattr(fnv, "name", None)))
+        return fork(ex, st, z3.UGE(q - s, lo_n),
+                    lambda s1: [Outcome(s1, ret=r_ok(SliceV(ln, q, e), SliceV(ln, s, q)))],
+                    lambda s2: [Outcome(s2, ret=r_err(1, "TakeWhileMN"))])
     if k in ("is_a", "is_not"):
         t = const_bytes(p.args[0])
         member = lambda b: z3.Or(*[b == c for c in t]) if t else z3.BoolVal(False)
@@ -480,17 +496,31 @@ def f_u8_from_str(ex, st, name, args):
     return [Outcome(st, ret=EnumV("Result", d, {0: [z3.Extract(7, 0, val)], 1: [Opaque("ParseIntError")]}))]
 
 
-FN_PARSERS = [(re.compile(r"^nom::character::complete::hex_digit1::<"), "hex_digit1"),
-              (re.compile(r"^nom::character::complete::hex_digit0::<"), "hex_digit0"),
-              (re.compile(r"^nom::character::complete::digit0::<"), "digit0"),
-              (re.compile(r"^nom::character::complete::alpha1::<"), "alpha1"),
-              (re.compile(r"^nom::character::complete::alphanumeric1::<"), "alphanumeric1"),
-              (re.compile(r"^nom::combinator::rest::<"), "rest"),
-              (re.compile(r"^nom::combinator::eof::<"), "eof"),
-              (re.compile(r"^nom::character::complete::digit1::<"), "digit1"),
-              (re.compile(r"^nom::number::complete::hex_u32::<"), "hex_u32"),
-              (re.compile(r"^nom::character::complete::anychar::<"), "anychar")]
-FN_TABLE = [(re.compile(r"^(?:core::str::|std::str::)?from_utf8$|^core::str::converts::from_utf8$"), f_from_utf8),
+FN_PARSERS = [(re.compile(r"(?:^|::)hex_digit1::<"), "hex_digit1"),
+              (re.compile(r"(?:^|::)hex_digit0::<"), "hex_digit0"),
+              (re.compile(r"(?:^|::)digit0::<"), "digit0"),
+              (re.compile(r"(?:^|::)alpha1::<"), "alpha1"),
+              (re.compile(r"(?:^|::)alphanumeric1::<"), "alphanumeric1"),
+              (re.compile(r"(?:^|::)rest::<"), "rest"),
+              (re.compile(r"(?:^|::)eof::<"), "eof"),
+              (re.compile(r"(?:^|::)digit1::<"), "digit1"),
+              (re.compile(r"(?:^|::)hex_u32::<"), "hex_u32"),
+              (re.compile(r"(?:^|::)anychar::<"), "anychar")]
+def f_byte_class(pred):
+    def fn(ex, st, name, args):
+        b = args[0]
+        if not z3.is_bv(b):
+            raise Unsupported("byte classifier on %r" % (b,))
+        return [Outcome(st, ret=pred(b))]
+    return fn
+
+
+FN_TABLE = [(re.compile(r"(?:^|::)is_digit$"), f_byte_class(is_digit)),
+            (re.compile(r"(?:^|::)is_hex_digit$"), f_byte_class(is_hex)),
+            (re.compile(r"(?:^|::)is_alphabetic$"), f_byte_class(lambda b: z3.Or(z3.And(z3.UGE(b, 65), z3.ULE(b, 90)), z3.And(z3.UGE(b, 97), z3.ULE(b, 122))))),
+            (re.compile(r"(?:^|::)is_alphanumeric$"), f_byte_class(lambda b: z3.Or(is_digit(b), z3.And(z3.UGE(b, 65), z3.ULE(b, 90)), z3.And(z3.UGE(b, 97), z3.ULE(b, 122))))),
+            (re.compile(r"^core::num::<impl u8>::is_ascii_digit$|^core::char::methods::<impl u8>::is_ascii_digit$"), f_byte_class(is_digit)),
+            (re.compile(r"^(?:core::str::|std::str::)?from_utf8$|^core::str::converts::from_utf8$"), f_from_utf8),
             (re.compile(r"^<u8 as FromStr>::from_str$|^<u8 as (?:core::str::|std::str::)?FromStr>::from_str$"), f_u8_from_str)]
 
 
@@ -647,7 +677,7 @@ def s_apply(ex, st, callee, args, argv, f):
 
 
 def build_table(extra):
-    nomp = r"^(?:nom::(?:bytes|character|number|combinator|sequence|branch)::(?:complete::)?)?"
+    nomp = r"^(?:nom::(?:bytes|character|number|combinator|sequence|branch|multi)::(?:complete::)?)?"
     ent = [
         (nomp + r"take::<", constructor("take", 1)),
         (nomp + r"tag::<", constructor("tag", 1)),
@@ -666,6 +696,7 @@ def build_table(extra):
         (nomp + r"separated_pair::<", constructor("separated_pair", 3)),
         (nomp + r"tuple::<", constructor("tuple", 1)),
         (nomp + r"recognize::<", constructor("recognize", 1)),
+        (nomp + r"take_while_m_n::<", constructor("take_while_m_n", 3)),
         (nomp + r"take_while::<", constructor("take_while", 1)),
         (nomp + r"take_while1::<", constructor("take_while1", 1)),
         (nomp + r"take_till::<", constructor("take_till", 1)),
